@@ -1,2 +1,4 @@
 pub mod axb;
 pub mod axfam;
+pub mod funfam;
+pub mod funlang;
